@@ -60,6 +60,53 @@ def createShape (P : Detect.Params) (is16 : Bool) (size : Nat) : Option (List (N
   | none => none
   | some L => some (shape (createWrs1x is16 L 0 [] [] []))
 
+/-! ### the whole image Create writes, as a function of (kind, size, label, epoch) only
+
+  fat12.go / fat16.go / fat32.go Create in reproducible mode: volume id 0; boot sector (and FAT32: its backup, FSInfo
+  and backup); both FAT copies as `table.Bytes()` of the fresh table (FAT12: media FF FF; FAT16: media FF FF FF;
+  FAT32: fatID, EOC marker and the root directory's cluster 2 = EOC); the zeroed root directory (cluster); then
+  SetLabel: boot sector(s) again with the label and the root directory (cluster) holding ONE entry, the volume label
+  created by Directory.createVolumeLabel with all three times = timestamp.GetTime() = SOURCE_DATE_EPOCH.
+  Neither the wall clock nor the start offset is an argument. -/
+
+open Diskfs.Detect in
+/-- directoryEntry.toBytes of the volume-label entry: 11 name bytes, attribute 0x08, the five date/time words -/
+def labelEntry (label : List Nat) (epoch : Nat) : Bytes :=
+  let dw := (timeToDateTime epoch).1
+  let tw := (timeToDateTime epoch).2
+  (List.range 32).map fun i =>
+    if i < 11 then strByte label i
+    else if i = 11 then 0x08
+    else if i = 14 then byteOf tw else if i = 15 then byteOf (tw / 256)          -- create time
+    else if i = 16 then byteOf dw else if i = 17 then byteOf (dw / 256)          -- create date
+    else if i = 18 then byteOf dw else if i = 19 then byteOf (dw / 256)          -- access date
+    else if i = 22 then byteOf tw else if i = 23 then byteOf (tw / 256)          -- modify time
+    else if i = 24 then byteOf dw else if i = 25 then byteOf (dw / 256)          -- modify date
+    else 0
+
+open Diskfs.Detect in
+def fatInit12 (media : Nat) : Bytes := [byteOf media, 0xFF, 0xFF]
+open Diskfs.Detect in
+def fatInit16 (media : Nat) : Bytes := [byteOf media, 0xFF, 0xFF, 0xFF]
+def fatInit32 : Bytes := [0xF8, 0xFF, 0xFF, 0x0F, 0xFF, 0xFF, 0xFF, 0x0F, 0xFF, 0xFF, 0xFF, 0x0F]
+
+inductive FatKind where
+  | f12 | f16 | f32
+deriving Repr, DecidableEq
+
+open Diskfs.Detect in
+/-- every WriteAt of Create (offsets relative to the volume start, full data); none when Create refuses the size -/
+def createImage (P : Detect.Params) (k : FatKind) (size : Nat) (label : List Nat) (epoch : Nat) : Option (List Wr) :=
+  match k with
+  | .f12 => (layout12 P size).map fun L => createWrs1x false L 0 label (fatInit12 L.media) (labelEntry label epoch)
+  | .f16 => (layout16 P size).map fun L => createWrs1x true L 0 label (fatInit16 L.media) (labelEntry label epoch)
+  | .f32 => (layout32 P size 512).map fun L => createWrs32 L 0 label fatInit32 (labelEntry label epoch)
+
+open Diskfs.Detect in
+/-- (offset, length) of every WriteAt of fat32.Create -/
+def createShape32 (P : Detect.Params) (size : Nat) : Option (List (Nat × Nat)) :=
+  (layout32 P size 512).map fun L => shape (createWrs32 L 0 [] [] [])
+
 /-! ### MBR -/
 
 structure MbrPart where
